@@ -59,6 +59,18 @@ pub struct RunCfg {
     pub fd_limit: u32,
     pub threads: u32,
     pub sched: Sched,
+    /// Some(h): fault-injecting configuration — while the command runs the
+    /// process may open only `h` more file descriptors than it already has
+    /// (open/create/mmap then fail with EMFILE at some point). The command
+    /// may fail; it must never report success with a wrong result.
+    pub fd_headroom: Option<u32>,
+    /// the starvation starts when the n-th batch (sort or union batch, in
+    /// the order the workers begin them; 0 = before the command starts) is
+    /// begun, so the failing call can be placed inside a particular batch
+    pub fd_from_batch: u32,
+    /// 0 = until the command ends; n > 0 = the limit is lifted again when the
+    /// n-th batch after `fd_from_batch` begins (a transient shortage)
+    pub fd_for_batches: u32,
 }
 
 #[derive(Clone, Debug, PartialEq, Eq)]
@@ -200,6 +212,54 @@ pub fn panic_msg(p: Box<dyn std::any::Any + Send>) -> String {
 
 pub const STEP_BUDGET: usize = 200_000;
 
+pub struct FdPlan {
+    headroom: u32,
+    from_batch: u32,
+    for_batches: u32,
+    seen: u32,
+    saved: Option<libc::rlimit>,
+}
+
+pub static FD_PLAN: Mutex<Option<FdPlan>> = Mutex::new(None);
+
+/// Called from the seam's batch trace hooks: start the descriptor
+/// starvation when the chosen batch begins.
+pub fn fd_fault_tick() {
+    if let Ok(mut g) = FD_PLAN.lock() {
+        if let Some(p) = g.as_mut() {
+            p.seen += 1;
+            if p.seen == p.from_batch && p.saved.is_none() {
+                p.saved = starve_fds(p.headroom);
+            } else if p.for_batches > 0 && p.seen == p.from_batch + p.for_batches {
+                if let Some(old) = p.saved.take() {
+                    unsafe {
+                        libc::setrlimit(libc::RLIMIT_NOFILE, &old);
+                    }
+                }
+            }
+        }
+    }
+}
+
+/// Lower the soft RLIMIT_NOFILE to (descriptors open now + headroom).
+/// Returns the previous limit. (The harness is the only place with `unsafe`:
+/// two libc calls; the code under test is untouched.)
+fn starve_fds(headroom: u32) -> Option<libc::rlimit> {
+    let open = std::fs::read_dir("/proc/self/fd").map(|d| d.count()).unwrap_or(16) as u64;
+    let mut old = libc::rlimit { rlim_cur: 0, rlim_max: 0 };
+    unsafe {
+        if libc::getrlimit(libc::RLIMIT_NOFILE, &mut old) != 0 {
+            return None;
+        }
+        // read_dir itself held one descriptor while counting
+        let new = libc::rlimit { rlim_cur: std::cmp::min(old.rlim_cur, open - 1 + headroom as u64), rlim_max: old.rlim_max };
+        if libc::setrlimit(libc::RLIMIT_NOFILE, &new) != 0 {
+            return None;
+        }
+    }
+    Some(old)
+}
+
 /// Execute one CLI invocation under the seeded scheduler.
 pub fn invoke(input: &Input, cfg: &RunCfg, dir: &Path) -> Invocation {
     let _ = std::fs::remove_dir_all(dir);
@@ -227,12 +287,36 @@ pub fn invoke(input: &Input, cfg: &RunCfg, dir: &Path) -> Invocation {
     let runner = shuttle::Runner::new(scheduler, config);
     let r2 = result.clone();
     let a2 = argv.clone();
+    let mut saved: Option<libc::rlimit> = None;
+    if let Some(h) = cfg.fd_headroom {
+        if cfg.fd_from_batch == 0 {
+            saved = starve_fds(h);
+        } else {
+            *FD_PLAN.lock().unwrap() = Some(FdPlan {
+                headroom: h,
+                from_batch: cfg.fd_from_batch,
+                for_batches: cfg.fd_for_batches,
+                seen: 0,
+                saved: None,
+            });
+        }
+    }
     let run = catch_unwind(AssertUnwindSafe(move || {
         runner.run(move || {
             let r = run_command(&a2);
             *r2.lock().unwrap() = Some(r);
         });
     }));
+    if let Some(p) = FD_PLAN.lock().unwrap().take() {
+        if p.saved.is_some() {
+            saved = p.saved;
+        }
+    }
+    if let Some(old) = saved {
+        unsafe {
+            libc::setrlimit(libc::RLIMIT_NOFILE, &old);
+        }
+    }
     let trace = TRACE.lock().unwrap().take().unwrap_or_default();
     let rec = rec.lock().unwrap().clone();
     let mut died = None;
@@ -346,7 +430,15 @@ pub struct CaseRun {
 }
 
 fn cfg_str(c: &RunCfg) -> String {
-    format!("--batch-size {} --fd-limit {} --threads {}", c.batch_size, c.fd_limit, c.threads)
+    format!(
+        "--batch-size {} --fd-limit {} --threads {}{}",
+        c.batch_size,
+        c.fd_limit,
+        c.threads,
+        c.fd_headroom
+            .map(|h| format!(" [at most {} more open files from batch {} for {} batches]", h, c.fd_from_batch, c.fd_for_batches))
+            .unwrap_or_default()
+    )
 }
 
 /// Run every (configuration, schedule) of a case and evaluate the oracles.
@@ -380,6 +472,11 @@ pub fn run_case(case: &Case, dir: &Path) -> CaseRun {
                     return v(o, format!("run {} ({}): {}", i, cfg_str(cfg), inv.result.clone().unwrap_err()));
                 }
                 if let Err(e) = &inv.result {
+                    if cfg.fd_headroom.is_some() {
+                        // descriptors were made scarce on purpose: failing is
+                        // allowed, succeeding with a wrong result is not
+                        return None;
+                    }
                     return v("C19.command_failed", format!("run {} ({}): {}", i, cfg_str(cfg), e));
                 }
                 let bytes = match &inv.output {
